@@ -103,7 +103,7 @@ class Templ:
                 return [self.value(x, crate) for x in v.fields]
             if t == '[]':
                 return [self.value(x, crate) for x in v.fields]
-            td = self.lookup(t, crate, hint)
+            td = v.td if v.td is not None else self.lookup(t, crate, hint)
             if td is None:
                 raise Gap('tojson: unknown type ' + t)
             if td.kind == 'struct':
